@@ -149,6 +149,9 @@ type c17Case struct {
 	Kind     string `json:"kind"` // create delete delete+create cleanup-active cleanup-canary
 	K        int    `json:"batch"`
 	RecentRU bool   `json:"rolling_update_started_less_than_5min_ago"`
+	// UserWrite: `kubectl-eds canary fail` (a write to the replica set's status) lands between the reads of the sync
+	// and its first write: the status write of the sync then meets a conflict
+	UserWrite bool `json:"user_write_mid_sync,omitempty"`
 }
 
 func c17Build(c c17Case, now time.Time) (*w.State, string) {
@@ -207,8 +210,17 @@ func c17Build(c c17Case, now time.Time) (*w.State, string) {
 // c17JudgeReturned: the error the sync itself reports (Reconcile's return value) must reflect failed parallel calls as
 // well, whenever the status write succeeded (otherwise that error is returned). The canary clean-up is the documented
 // exception: ManageCanaryDeployment records the failure in PodsCleanupDone and asks for a prompt requeue instead.
-func c17JudgeReturned(run *h.Run, c c17Case, sch *schedule, statusWritten bool, returned error) {
-	if sch.deadlock || !statusWritten || c.Kind == "cleanup-canary" {
+func c17JudgeReturned(run *h.Run, c c17Case, sch *schedule, statusWritten, statusAttempted bool, returned error) {
+	if sch.deadlock {
+		return
+	}
+	if statusAttempted && !statusWritten && returned == nil {
+		// nothing of this sync was stored (neither ReconcileError nor PodsCleanupDone): the error is all there is
+		run.Violate(h.Violation{Signature: "C17/lost: the status write of the sync failed and the sync returned no error (the outcome of its pod operations is recorded nowhere)", Monitor: "C17/reconcile",
+			Message: fmt.Sprintf("%d failed pod calls", sch.failures), Rank: int64(c.K*100 + sch.failures),
+			Replay: map[string]interface{}{"level": "reconcile", "case": c, "schedule": sch.choices, "released": sch.released}})
+	}
+	if !statusWritten || c.Kind == "cleanup-canary" {
 		return
 	}
 	if sch.failures > 0 && returned == nil {
@@ -269,12 +281,27 @@ func c17Reconcile(t *testing.T, run *h.Run, c c17Case) int {
 		l := w.NewLive(st, w.Config{})
 		l.API.Hook = g.hook
 		l.API.ResetLog()
+		if c.UserWrite {
+			fired := false
+			l.API.FaultFn = func(idx int, call *w.Call) string {
+				if !fired && call.IsWrite() {
+					fired = true
+					if err, _ := w.RunKubectl(l.API.Inner(), "ns", "foo", "canary-fail"); err != nil {
+						panic("c17: canary fail refused: " + err.Error())
+					}
+				}
+				return ""
+			}
+		}
 		rr := l.ReconcileERS("ns", rsName)
 		post := l.Capture(st).ERS("ns", rsName)
-		written := false
+		written, attempted := false, false
 		for _, call := range l.API.Log {
-			if call.Kind == "ExtendedDaemonSetReplicaSet" && call.Sub == "status" && call.Err == nil {
-				written = true
+			if call.Kind == "ExtendedDaemonSetReplicaSet" && call.Sub == "status" && call.IsWrite() {
+				attempted = true
+				if call.Err == nil {
+					written = true
+				}
 			}
 		}
 		return func(sch *schedule) {
@@ -282,7 +309,7 @@ func c17Reconcile(t *testing.T, run *h.Run, c c17Case) int {
 				run.Violate(h.Violation{Signature: fmt.Sprintf("C17/panic: %v at %s", rr.Panic, rr.PanicSite), Monitor: "C17/reconcile", Message: "", Replay: c})
 			}
 			c17Judge(run, "reconcile", c, sch, post, written)
-			c17JudgeReturned(run, c, sch, written, rr.Err)
+			c17JudgeReturned(run, c, sch, written, attempted, rr.Err)
 		}
 	}, func() { run.Count("schedules", 1) })
 }
@@ -303,7 +330,10 @@ func TestC17(t *testing.T) {
 				if kind == "delete+create" && k < 2 {
 					continue
 				}
-				cases = append(cases, c17Case{kind, k, recent})
+				cases = append(cases, c17Case{Kind: kind, K: k, RecentRU: recent})
+				if kind == "cleanup-canary" && k <= 3 {
+					cases = append(cases, c17Case{Kind: kind, K: k, UserWrite: true})
+				}
 			}
 		}
 	}
